@@ -47,7 +47,7 @@ def case_tensordot(ctx, rng):
     dt = dtype_for(rng) if mode_vals == "int" else rng.choice(["float64", "complex128"])
     vals = gen.Values(rng, mode_vals, dt)
     maxnd = 4 if rng.random() < 0.15 else 3
-    a, b, axa, axb = gen.contractible_pair(sr, rng, sym, False, maxnd=maxnd, values=vals, maxd=3 if maxnd == 3 else 2, p_ragged=0.12, p_hist=0.1)
+    a, b, axa, axb = gen.contractible_pair(sr, rng, sym, False, maxnd=maxnd, values=vals, maxd=3 if maxnd == 3 else 2, p_ragged=0.12, p_hist=0.1, p_mixclass=0.08)
     exact = mode_vals == "int"
     ra_, rb_ = gen.union_refs(sr, a, b, axa, axb)
     if any(dict(a.indices[i].chargemap) != dict(b.indices[j].chargemap) for i, j in zip(axa, axb)):
